@@ -23,6 +23,8 @@ def domain():
 
 
 def run(ck, prog):
+    from props.common import check_memos
+    ck.attempt(check_memos, ck, prog)
     ck.level = "proof"
     ck.extra["exhaustive"] = True
     ck.explanation = (
